@@ -212,6 +212,9 @@ func InitCode(name string) []byte {
 		return evmx.NewAsm().MStore32(0x80, bytes.Repeat([]byte{0xdd}, 32)).Push(32).Push(0x80).Op(vm.REVERT).Bytes()
 	case "invalid":
 		return []byte{byte(vm.INVALID)}
+	case "nodeposit":
+		// RETURN(0, 100): a 100-byte runtime whose 20000-gas deposit the (low-gas) top-level create cannot pay
+		return evmx.NewAsm().Push(100).Push(0).Op(vm.RETURN).Bytes()
 	case "big":
 		// RETURN(0, 0x6001): larger than the EIP-170 limit
 		return evmx.NewAsm().Push(0x6001).Push(0).Op(vm.RETURN).Bytes()
@@ -221,7 +224,14 @@ func InitCode(name string) []byte {
 
 type world struct {
 	names map[string]common.Address
+	// unit is the number of wei one model value unit stands for: 1, or 2^64+1 so that every non-zero value, balance
+	// and journal entry exceeds 64 bits (the model's arithmetic is the same under either scale)
+	unit *big.Int
 }
+
+var bigUnit = new(big.Int).Add(new(big.Int).Lsh(big.NewInt(1), 64), big.NewInt(1))
+
+func (w *world) wei(v int) *big.Int { return new(big.Int).Mul(big.NewInt(int64(v)), w.unit) }
 
 func (w *world) addr(name string) common.Address {
 	if a, ok := w.names[name]; ok {
@@ -244,7 +254,7 @@ func (w *world) addr(name string) common.Address {
 }
 
 func newWorld() *world {
-	return &world{names: map[string]common.Address{
+	return &world{unit: big.NewInt(1), names: map[string]common.Address{
 		"eoa": evmx.DefaultOrigin, "a": AddrA, "b": AddrB, "n": AddrN, "p": AddrP, "pw": AddrPW, "z": AddrZ,
 	}}
 }
@@ -267,6 +277,7 @@ var (
 	retDD  = bytes.Repeat([]byte{0xdd}, 32)
 	clobb  = bytes.Repeat([]byte{0x77}, 32)
 	retBig = make([]byte, 0x6001)
+	retRt  = make([]byte, 100)
 )
 
 // ctxWritePayload is a well-formed abi.encode(bytes key, bytes value) for 0x66.
@@ -343,11 +354,11 @@ func (w *world) compileBlock(a *evmx.Asm, prog []Instr, cancun bool) {
 			}
 			switch in.Kind {
 			case "CALL":
-				a.Push(uint64(in.Val)).PushAddr(w.addr(in.Tgt))
+				a.PushBig(w.wei(in.Val)).PushAddr(w.addr(in.Tgt))
 				gasArg()
 				a.Op(vm.CALL)
 			case "CALLCODE":
-				a.Push(uint64(in.Val)).PushAddr(w.addr(in.Tgt))
+				a.PushBig(w.wei(in.Val)).PushAddr(w.addr(in.Tgt))
 				gasArg()
 				a.Op(vm.CALLCODE)
 			case "DELEGATECALL":
@@ -370,9 +381,9 @@ func (w *world) compileBlock(a *evmx.Asm, prog []Instr, cancun bool) {
 			ic := InitCode(in.Init)
 			a.MStoreBytes(off, ic)
 			if in.Kind == "CREATE2" {
-				a.Push(0).Push(uint64(len(ic))).Push(off).Push(uint64(in.Val)).Op(vm.CREATE2)
+				a.Push(0).Push(uint64(len(ic))).Push(off).PushBig(w.wei(in.Val)).Op(vm.CREATE2)
 			} else {
-				a.Push(uint64(len(ic))).Push(off).Push(uint64(in.Val)).Op(vm.CREATE)
+				a.Push(uint64(len(ic))).Push(off).PushBig(w.wei(in.Val)).Op(vm.CREATE)
 			}
 			a.Op(vm.POP)
 			// overwrite the init code area afterwards (C08: recorded init code must not change)
@@ -451,6 +462,8 @@ func errClass(err error, panicked string) string {
 		return "collision"
 	case err == vm.ErrMaxCodeSizeExceeded:
 		return "codesize"
+	case err == vm.ErrCodeStoreOutOfGas:
+		return "codestore"
 	}
 	msg := err.Error()
 	switch {
@@ -482,6 +495,8 @@ func retToken(b []byte) string {
 		return "stub"
 	case bytes.Equal(b, retBig):
 		return "big"
+	case bytes.Equal(b, retRt):
+		return "rt"
 	}
 	return "x:" + hex.EncodeToString(b)
 }
@@ -508,10 +523,18 @@ var callFamily = map[vm.OpCode]bool{vm.CALL: true, vm.CALLCODE: true, vm.DELEGAT
 // Run executes the scenario on the real EVM for one fork and compares.
 func Run(s *Scenario, fork string) (out Outcome) {
 	w := newWorld()
+	// every other scenario is replayed with the large wei unit (chosen by a property of the scenario, so that it is reproducible)
+	ni := 0
+	for _, f := range s.Frames {
+		ni += len(f.Prog)
+	}
+	if (len(s.Frames)*7+s.FailPos*3+ni)%2 == 0 {
+		w.unit = bigUnit
+	}
 	env := evmx.NewEnv(evmx.EnvOpts{Fork: fork, Tracer: true, Steps: false})
 	st := env.State
-	st.SetBalance(w.addr("eoa"), big.NewInt(5))
-	st.SetBalance(AddrA, big.NewInt(2))
+	st.SetBalance(w.addr("eoa"), w.wei(5))
+	st.SetBalance(AddrA, w.wei(2))
 	st.SetNonce(AddrA, 1)
 	st.SetNonce(AddrB, 1)
 	st.SetNonce(AddrZ, 1)
@@ -567,11 +590,15 @@ func Run(s *Scenario, fork string) (out Outcome) {
 		var res evmx.Result
 		if top.Kind == "create" {
 			env.Prepare(nil)
-			res = env.Create(w.addr("eoa"), InitCode(top.Init), topGas, big.NewInt(int64(top.Val)))
+			g := topGas
+			if top.Init == "nodeposit" {
+				g = 5000 // plenty for the init code (about 20 gas), far too little for the 20000-gas code deposit
+			}
+			res = env.Create(w.addr("eoa"), InitCode(top.Init), g, w.wei(top.Val))
 		} else {
 			to := w.addr(top.Tgt)
 			env.Prepare(&to)
-			res = env.Call(w.addr("eoa"), to, Calldata(top.Frame, top.Alen), topGas, big.NewInt(int64(top.Val)))
+			res = env.Call(w.addr("eoa"), to, Calldata(top.Frame, top.Alen), topGas, w.wei(top.Val))
 		}
 		results = append(results, res)
 		if res.Panic != "" {
@@ -634,7 +661,8 @@ func (c *comparer) results(rs []evmx.Result) {
 			c.miss("panic", "top-level call %d panicked: %s", i, r.Panic)
 			continue
 		}
-		if got := errClass(r.Err, r.Panic); got != x.Err {
+		if got := errClass(r.Err, r.Panic); got != x.Err && !(x.Err == "jrn" && strings.HasPrefix(got, "other:")) {
+			// ("jrn": a refused journal instruction; the error's wording is not part of any property)
 			c.miss("result.err", "top %d: error class %q, model %q (%v)", i, got, x.Err, r.Err)
 		}
 		want := x.Ret
@@ -697,8 +725,8 @@ func (c *comparer) world() {
 		if raw, ok := x.Bal[n]; ok {
 			wantBal = intOf(raw)
 		}
-		if got := st.GetBalance(a); got.Cmp(big.NewInt(int64(wantBal))) != 0 {
-			c.miss("world.bal", "balance of %s is %v, model %d", n, got, wantBal)
+		if got := st.GetBalance(a); got.Cmp(c.w.wei(wantBal)) != 0 {
+			c.miss("world.bal", "balance of %s is %v, model %d (x %v wei)", n, got, wantBal, c.w.unit)
 		}
 		want := [2]int{}
 		if raw, ok := x.Stor[n]; ok {
@@ -777,6 +805,8 @@ func retBytes(tok string) []byte {
 		return StubRuntime
 	case "big":
 		return retBig
+	case "rt":
+		return retRt
 	}
 	return nil
 }
@@ -848,8 +878,8 @@ func (c *comparer) tree() {
 		if got := c.nameHex(nd.To); got != m.To {
 			c.miss("tree.content", "node %d: to %s, model %s", i, got, m.To)
 		}
-		if nd.Value != fmt.Sprint(m.Value) {
-			c.miss("tree.content", "node %d: value %s, model %d", i, nd.Value, m.Value)
+		if nd.Value != c.w.wei(m.Value).String() {
+			c.miss("tree.content", "node %d: value %s, model %d (x %v wei)", i, nd.Value, m.Value, c.w.unit)
 		}
 		if want := hex.EncodeToString(c.dataOf(m)); nd.Data != want {
 			c.miss("tree.data", "node %d: recorded input %s, as made %s", i, nd.Data, want)
@@ -872,7 +902,7 @@ func (c *comparer) tree() {
 		if wantErr == "revert" || wantErr == "jprev" {
 			wantErr = "revert|jprev"
 		}
-		if gotErr != wantErr {
+		if gotErr != wantErr && !(wantErr == "jrn" && strings.HasPrefix(gotErr, "other:")) {
 			c.miss("tree.content", "node %d: err %q (%s), model %q", i, gotErr, nd.Err, m.Err)
 		}
 	}
@@ -895,6 +925,8 @@ func errClassText(msg string) string {
 		return "collision"
 	case msg == vm.ErrMaxCodeSizeExceeded.Error():
 		return "codesize"
+	case msg == vm.ErrCodeStoreOutOfGas.Error():
+		return "codestore"
 	case strings.HasPrefix(msg, "invalid opcode"):
 		return "invalid"
 	case msg == "jp-boom":
@@ -922,11 +954,23 @@ func (c *comparer) fired() {
 		return
 	}
 	// payloads of the firings that reached a bound Aspect
-	var aenters []evmx.Event
+	var aenters, aexits []evmx.Event
 	for _, e := range c.env.Rec.Events {
 		if e.Ev == "AEnter" {
 			aenters = append(aenters, e)
 		}
+		if e.Ev == "AExit" {
+			aexits = append(aexits, e)
+		}
+	}
+	// the bound Aspects are benign: a join point may fail only where the scenario injects a failure
+	for i, e := range aexits {
+		if e.Err != "" {
+			c.miss("jp.payload", "Aspect execution %d (%s join point) failed although nothing makes it fail: %s", i, e.Point, e.Err)
+		}
+	}
+	if len(aexits) != len(aenters) {
+		c.miss("jp.payload", "%d Aspect executions entered, %d finished", len(aenters), len(aexits))
 	}
 	k := 0
 	for i, f := range x {
@@ -960,8 +1004,8 @@ func (c *comparer) fired() {
 		if e.MData != hex.EncodeToString(Calldata(fr.ID, fr.Alen)) {
 			c.miss("jp.payload", "firing %d: data %s, model %x", i, e.MData, Calldata(fr.ID, fr.Alen))
 		}
-		if e.MValue != fmt.Sprint(f.Value) {
-			c.miss("jp.payload", "firing %d: value %s, model %d", i, e.MValue, f.Value)
+		if e.MValue != c.w.wei(f.Value).String() {
+			c.miss("jp.payload", "firing %d: value %s, model %d (x %v wei)", i, e.MValue, f.Value, c.w.unit)
 		}
 		if int(e.MIndex) != f.Index-1 {
 			c.miss("jp.payload", "firing %d: call index %d, model %d", i, e.MIndex, f.Index-1)
@@ -981,7 +1025,7 @@ func (c *comparer) fired() {
 			if we == "revert" || we == "jprev" {
 				we = "revert|jprev"
 			}
-			if ge != we {
+			if ge != we && !(we == "jrn" && strings.HasPrefix(ge, "other:")) {
 				c.miss("jp.payload", "firing %d: error %q (%s), model %q", i, ge, e.MErr, f.Err)
 			}
 		}
@@ -1085,7 +1129,14 @@ func (c *comparer) journals() {
 		got := map[int][]int{}
 		for idx, l := range evmx.DumpChanges(sc.Balance(c.w.addr(n))) {
 			for _, v := range l {
-				got[int(idx)] = append(got[int(idx)], bytesToInt(v))
+				// journaled balances are multiples of the wei unit; anything else is rendered as -1 (cannot match the model)
+				b, _ := hex.DecodeString(v)
+				q, r := new(big.Int).QuoRem(new(big.Int).SetBytes(b), c.w.unit, new(big.Int))
+				if r.Sign() != 0 || !q.IsInt64() {
+					got[int(idx)] = append(got[int(idx)], -1)
+				} else {
+					got[int(idx)] = append(got[int(idx)], int(q.Int64()))
+				}
 			}
 		}
 		w := want[n]
